@@ -174,7 +174,6 @@ func checkValueLookup(r *Run, prog *Program, a *Anchors, pfx string) {
 			r.Check(pfx+".lookup", "lookup-error-untested", pos, false, "a return is reached without testing the lookup's error"+trail)
 			continue
 		}
-		unknownF := &Sym{K: sField, A: optsSym, Str: optField(prog, "WithUnknownValue")}
 		switch {
 		case errNil:
 			seenClasses["found"]++
@@ -199,14 +198,15 @@ func checkValueLookup(r *Run, prog *Program, a *Anchors, pfx string) {
 				r.Check(pfx+".lookup", "other-error", pos, ec == "nonnil" && !pv && len(lf.gets) == 1, "an error other than ErrNotFound (out of range, step into a scalar) must be returned as an error, without consulting the unknown value or the parent"+trail)
 				continue
 			}
-			unkNil, unkKnown := evalEq(sm.St, unknownF, nilSym())
+			unkGiven, unkKnown := optionGiven(prog, sm.St, optsSym, "WithUnknownValue")
+			unkNil := !unkGiven
 			if !unkKnown {
 				r.Check(pfx+".lookup", "unknown-untested", pos, false, "on ErrNotFound the configured unknown value is not consulted before deciding"+trail)
 				continue
 			}
 			if !unkNil {
 				seenClasses["unknown-substituted"]++
-				want := (&Sym{K: sLoad, A: unknownF}).Key()
+				want := optionValueKey(prog, optsSym, "WithUnknownValue")
 				ok := pv && ec == "nil" && val.Key() == want && len(lf.gets) == 1
 				r.Check(pfx+".lookup", "unknown-substituted", pos, ok, "with an unknown value configured, an absent key/field must resolve to exactly that value (and the map-parent test must not run first); got ("+val.Key()+", "+present.Key()+", "+ec+"), lookups="+fmt.Sprint(len(lf.gets))+trail)
 				continue
